@@ -69,6 +69,10 @@ CHECKS = {
          "and cache clearing is selected by choice variables enumerated exhaustively; each operation's outcome is compared with the same "
          "operation run cold; containers are checked for identity with earlier results / inputs; a failing history is attributed to the "
          "earlier operation whose removal makes it vanish.", "4/C12", "CrossHair/z3 exhaustive enumeration of operation sequences (bounded model checking by choice variables), native replay"),
+ "C11": ("E3 differential for wrapper chain x position x reference origin (choice variables enumerated exhaustively; routines for "
+         "pos(W(T)) and pos(T) built natively and compared on 10 inputs per base through unmarshaller, marshaller and codec), plus an E1 "
+         "differential of the two root unmarshallers on a symbolic x in J for each wrapper kind.", "4/C11",
+         "CrossHair/z3 enumeration of wrapper chains (choice variables) + value-symbolic differential execution, native replay"),
 }
 NA = {
  "C17": "flat catalogue of CPython type objects compared with CPython's own issubclass/typing internals: neither side can be encoded for a solver and there is no value, shape, state or history to make symbolic (DESIGN.md section 7)",
